@@ -39,7 +39,7 @@ func verify(args []string) {
 	work := fs.String("work", "/verif/.work/dev", "work directory")
 	keep := fs.Bool("keep", false, "keep solver files")
 	verbose := fs.Bool("v", false, "verbose")
-	jobs := fs.Int("j", 14, "parallel solver jobs")
+	jobs := fs.Int("j", 8, "parallel solver jobs")
 	fs.Parse(args)
 	t0 := time.Now()
 	prog, err := vc.Load(vc.LoadConfig{Dir: *dir, Patterns: strings.Split(*pkgs, ",")})
@@ -73,6 +73,20 @@ func verify(args []string) {
 			for _, n := range res.Notes {
 				fmt.Println("   note:", n)
 			}
+			all = append(all, res.Queries...)
+		}
+	}
+	for _, pk := range prog.Pkgs {
+		for _, ld := range prog.Lemmas[pk.PkgPath] {
+			if re != nil && !re.MatchString("lemma "+ld.L.Name) {
+				continue
+			}
+			res := prog.VerifyLemma(ld)
+			if res.Unsupported != "" {
+				fmt.Printf("NOT VERIFIED %s: %s\n", res.Key, res.Unsupported)
+				continue
+			}
+			fmt.Printf("%s: %d queries\n", res.Key, len(res.Queries))
 			all = append(all, res.Queries...)
 		}
 	}
